@@ -291,7 +291,60 @@ def run(prog: Program, rep: Report, tier: str):
     rep.decide(ok, "G8.zero-budget-checkpoint", it, "assert-zero-checkpoint", "asserted", "the evaluation route does not "
                "assert a zero checkpoint: a resume checkpoint combined with a zero budget is silently ignored",
                clause="C06.3", nontrivial=False)
+    passes_stateless(prog, rep)
     names.check(prog, rep, [FILE], clause="C06.G1", floor=10)
+
+
+def passes_stateless(prog: Program, rep: Report):
+    """The samplers the package offers for the main stream / the interleaved configs: one pass must not depend on the passes
+    the same object served before, else a resumed run (fresh objects) cannot reproduce the suffix of the uninterrupted one."""
+    from .c12 import draws
+    rep.rule("G8.pass-stateless", "in every sampler class of kappadata/samplers, a random draw inside __iter__ uses a generator that "
+             "is created - or re-seeded (manual_seed) on every path before the draw - inside that same __iter__ call; a "
+             "generator kept on the instance and merely advanced makes the j-th pass of an object differ from the first pass of "
+             "a fresh object: an uninterrupted run (one object serving all passes) and a resumed run (fresh objects) then "
+             "disagree on the contents of the interleaved passes.  (InterleavedSampler announces epochs only to the main "
+             "sampler, so re-seeding in set_epoch does not help a config sampler.)")
+    n = 0
+    for C in sorted(prog.classes.values(), key=lambda c: c.qualname):
+        rel = C.module.relpath
+        if not rel.startswith("kappadata/samplers/") or prog.is_dead(C.module):
+            continue
+        fi = C.methods.get("__iter__")
+        if fi is None:
+            continue
+        fa = fa_of(prog, fi)
+        ds = draws(prog, fa)
+        if not ds:
+            continue
+        rep.analysed_add("functions", f"{rel}:{fi.qualname}")
+        for dn, call, kind, gen in ds:
+            n += 1
+            construct = f"draw:{' '.join(ast.unparse(call).split())[:70]}"
+            if kind != "gen" or gen is None:
+                rep.unk("G8.pass-stateless", fi, construct, "draw from the process-global RNG (judged by the seeding properties, "
+                        "not here)", line=call.lineno, clause="C06.4")
+                continue
+            persistent = gen[0] == "self" or (gen[0] == "var" and gen[1].startswith(f"{fa.self_name}."))
+            if not persistent and gen[0] == "var" and len(gen) == 3:
+                vals = [fa.cfg.def_value(d, gen[1]) for d in gen[2]]
+                if any(v is not None and (fa.sym.term(v, d)[0] == "self" or str(fa.sym.term(v, d)[1:2]).find(f"{fa.self_name}.") >= 0)
+                       for v, d in zip(vals, gen[2])):
+                    rep.unk("G8.pass-stateless", fi, construct, "on some path the generator is one supplied by the caller and kept "
+                            "on the instance (the caller's choice, as with torch's RandomSampler)", line=call.lineno, clause="C06.4")
+                    continue
+            if not persistent:
+                rep.ok("G8.pass-stateless", fi, construct, f"generator {show(gen)[:60]} is built inside this __iter__ call",
+                       line=call.lineno, clause="C06.4")
+                continue
+            reseeds = [m for m, c2 in fa.calls_named("manual_seed") if c2.args and fa.cfg.dominates(m, dn)
+                       and isinstance(c2.func, ast.Attribute) and fa.sym.term(c2.func.value, m) == gen]
+            rep.decide(bool(reseeds), "G8.pass-stateless", fi, construct,
+                       "the instance's generator is re-seeded before the draw in this __iter__ call",
+                       f"the draw advances {show(gen)}, a generator kept on the sampler object and not re-seeded inside __iter__: "
+                       f"the second pass of one object differs from the first pass of a fresh one, so a resumed run does not "
+                       f"reproduce the interleaved passes of the uninterrupted run", line=call.lineno, clause="C06.4")
+    rep.floor("random draws in the package's sampler classes", n, 2)
 
 
 def _unattr(t):
